@@ -11,6 +11,8 @@ from .values import *   # noqa: F401,F403
 from .npmodel import cast, raise_py
 
 ST = z3.DeclareSort('RngState')
+SHUF = z3.Function('shuffle_perm', z3.IntSort(), z3.IntSort(), z3.IntSort())
+SHUFINV = z3.Function('shuffle_perm_inv', z3.IntSort(), z3.IntSort(), z3.IntSort())
 SEED_STATE = z3.Function('seed_state', z3.IntSort(), ST)
 GSEED = z3.Function('gseed', z3.IntSort(), ST)
 G0 = z3.Const('G0', ST)
@@ -166,6 +168,11 @@ def register(M):
         else:
             raise Unsupported('shuffle of %r' % (type(px),))
         st.ghost['last_shuffle'] = (f, inv, n)
+        kq = st.env.get('_k')
+        if kq is not None and is_scalar(kq):
+            # ghost log: the permutation used in the k-th iteration of the enclosing loop
+            r = bvar('r')
+            st.assume(forall([r], IMPLIES(in_range(r, 0, n), AND(SHUF(Z(kq), r) == f(r), in_range(SHUF(Z(kq), r), 0, n), SHUFINV(Z(kq), SHUF(Z(kq), r)) == r))))
         ex.use('A-RNG:shuffle permutes the rows in place by a bijection determined by the generator state')
         ex.write_ref(x, new, st, node, 'rng.shuffle')
         ex.write_ref(base, SGen(F('adv_shuffle', ST, z3.IntSort(), ST)(s0, Z(n))), st, node)
@@ -277,6 +284,8 @@ def register(M):
         """global_is(state): numpy's global generator is currently in that state"""
         return global_state(st) == state_of(args[0], st)
     B['global_is'] = b_global_is
+
+    B['shuffle_perm'] = lambda args, kw, st, node: SHUF(Z(num(args[0])), Z(num(args[1])))
 
     def b_g_mvn(args, kw, st, node):
         G = state_of(args[0], st)
